@@ -104,7 +104,9 @@ class Domain:
         if self._user_volume is None:
             return self._get_volume(params, device=device)
         else:
-            return self._user_volume(params, device=device)
+            # same shape as the computed volumes: one row per parameter row, also
+            # if the user set a plain number (0-dim) or a function returning a column
+            return self._user_volume(params, device=device).reshape(-1, 1)
 
     def __add__(self, other):
         """Creates the union of the two input domains.
